@@ -48,32 +48,34 @@ def run(tier, v):
     cfgs = ["Pool_exh_start.cfg"] + (["Pool_exh_large.cfg"] if thorough else [])
     states = trans = 0
     table = {}
+    negs = pc.negatives_start(NEGS)
     for cfg in cfgs:
         r, t = pc.design(cfg, workers=8 if not thorough else 12, heap="6g" if not thorough else "16g")
         states += r.distinct
         trans += r.generated
         for k, x in t.items():
             table.setdefault(k, x)["outs"] |= x["outs"]
-    pc.negatives(NEGS)
+    pc.negatives_join(negs)
     b = vlib.harness_build()
     d = vlib.scratch()
     if thorough:
         table = {k: x for k, x in table.items() if len(set(x["cfg"]["startup"])) > 1 or x["cfg"]["n"] == 3}
-    rows_c, val_c, st_c, cstat = pc.cases(v, PID, b, d, table, 3 if thorough else 2, "c12_cases")
-    rows_t, val_t, st_t = pc.traces(v, PID, b, d, "c12", 2000 if thorough else 150, "c12_traces")
+    rows_c, rows_t, validated, tstates, cstat, corrupted = pc.both(
+        v, PID, b, d, table, 3 if thorough else 2, "c12", 2000 if thorough else 150)
     runs_t = sorted({r["run"] for r in rows_t})
     ends = [r for r in rows_t if r["ev"] == "end"]
     confs = {r["run"]: r for r in rows_t if r["ev"] == "conf"}
     cov = {
         "states": states, "transitions": trans,
-        "traces_validated_against_impl": val_c + val_t,
-        "trace_events": len(rows_c) + len(rows_t), "trace_states": st_c + st_t,
+        "traces_validated_against_impl": validated,
+        "trace_events": len(rows_c) + len(rows_t), "trace_states": tstates,
         "random_configurations": len(runs_t),
         "runs_start_cut_short": len([e for e in ends if e["created"] < confs[e["run"]]["n"]]),
         "runs_all_tokens_started": len([e for e in ends if e["created"] == confs[e["run"]]["n"]]),
         "instances_created": sum(e["created"] for e in ends),
         "runs_with_known_start_instant": len([c for c in confs.values() if c["explicit"]]),
         "samples": [pc.sample_of(rows_t, x) for x in runs_t[:2]] + [pc.sample_of(rows_c, 0)],
+        "corrupted_traces_rejected": corrupted,
         "negative_controls": NEGS, "design_configs": cfgs,
         "exhaustive": False,
     }
